@@ -411,34 +411,50 @@ def r4_document(rep, src):
     # dump: header, then for every paragraph a blank line and the paragraph, in list order
     d = src.func(M + ':Copyright.dump')
     rep.saw_func(d)
+    # the document is the header, then for every paragraph an empty line and the paragraph, each with exactly the text its own dump()
+    # gives -- decided on the TEXT that reaches the file / is returned, whatever way it is assembled (writes into a buffer, a join).
+    # The paragraph texts of the scenario end in blanks, a tab and U+3000 in front of the final newline: text of the last field.
+    texts = {'@header': 'Format: x\n', '@para1': 'Files: *\nLicense: a  \n', '@para2': 'License: b\n text\t\n', '@para3': 'License: c\n end\u3000\n'}
+    want = texts['@header'] + ''.join('\n' + texts[k_] for k_ in ('@para1', '@para2', '@para3'))
     for to_file in (True, False):
-        events = []
+        bufs = {}
 
         def pdump(it, args, kw):
-            events.append(('dump', args[0].name, args[1].name if len(args) > 1 and isinstance(args[1], H.Ref) else None))
-            return None
+            me_ = args[0]
+            if not (isinstance(me_, H.Ref) and me_.name in texts):
+                return NotImplemented
+            sink_ = args[1] if len(args) > 1 else kw.get('fd')
+            if isinstance(sink_, H.Ref):
+                bufs[sink_.name] = bufs.get(sink_.name, '') + texts[me_.name]
+                return None
+            return texts[me_.name]
 
         def fwrite(it, args, kw):
-            events.append(('write', args[1]))
+            t_ = args[1].concrete() if hasattr(args[1], 'concrete') else args[1]
+            if not isinstance(t_, str):
+                raise AnalysisError('C17.R4: write() of %r' % (args[1],))
+            bufs[args[0].name] = bufs.get(args[0].name, '') + t_
             return None
-        heap = H.Heap(mod, hooks={'.dump': pdump, '.write': fwrite, '.getvalue': lambda it, a, k: 'TEXT',
-                                  'io.StringIO': lambda it, a, k: it.h.alloc('StringIO', {}, name='@buffer')})
+        heap = H.Heap(mod, hooks={'.dump': pdump, '.write': fwrite, '.getvalue': lambda it, a, k: bufs.get(a[0].name, ''),
+                                  'io.StringIO': lambda it, a, k: it.h.alloc('StringIO', {})})
         hdr = heap.alloc('Header', {}, name='@header')
-        ps = [heap.alloc('FilesParagraph', {}, name='@para1'), heap.alloc('LicenseParagraph', {}, name='@para2')]
+        ps = [heap.alloc('FilesParagraph', {}, name='@para1'), heap.alloc('LicenseParagraph', {}, name='@para2'), heap.alloc('LicenseParagraph', {}, name='@para3')]
         me = heap.alloc('Copyright', {'_Copyright__header': hdr, 'header': hdr, '_Copyright__paragraphs': heap.new_list(ps)}, name='@copyright')
         fobj = heap.alloc('File', {}, name='@file') if to_file else None
-        what = 'dump(%s) = header, then blank line + paragraph, in list order' % ('f' if to_file else 'None')
+        what = 'dump(%s) = header, then an empty line + paragraph for every paragraph, in list order' % ('f' if to_file else 'None')
         try:
             r = H.Interp(heap).call(H.Closure(d.node, {}, me, d.cls), [fobj])
         except H.Raised as x:
-            rep.fail('C17.R4', d.site, what, 'raises %s' % x.exc, where=d.where)
+            rep.fail('C17.R4', d.site, what, 'raises %s (line %d)' % (x.exc, x.lineno), where=d.where)
             continue
-        sink = '@file' if to_file else '@buffer'
-        want = [('dump', '@header', sink), ('write', '\n'), ('dump', '@para1', sink), ('write', '\n'), ('dump', '@para2', sink)]
-        if events == want and r == (None if to_file else 'TEXT'):
-            rep.ok('C17.R4', d.site, what, 'ok')
+        got = bufs.get('@file', '') if to_file else (r.concrete() if hasattr(r, 'concrete') else r)
+        if got == want and (r is None or not to_file):
+            rep.ok('C17.R4', d.site, what, 'the text is the concatenation of the paragraph texts with one empty line between them')
         else:
-            rep.fail('C17.R4', d.site, what, 'dump performs %r and returns %r; specified %r' % (events, r, want), where=d.where)
+            k_ = next((i_ for i_, (a_, b_) in enumerate(zip(got or '', want)) if a_ != b_), min(len(got or ''), len(want))) if isinstance(got, str) else 0
+            rep.fail('C17.R4', d.site, what, 'the document text is %r; the paragraphs written one after the other with an empty line between them give %r (first difference at '
+                     'offset %d: %r vs %r) -- text of the paragraphs is lost or changed when the document is put together' % (
+                         got, want, k_, (got or '')[k_:k_ + 12] if isinstance(got, str) else got, want[k_:k_ + 12]), where=d.where)
     # add_files_paragraph: after the last Files paragraph
     a = src.func(M + ':Copyright.add_files_paragraph')
     rep.saw_func(a)
